@@ -460,6 +460,23 @@ func (e *env) faultHistory(pub int, history []string) {
 			if !crashed {
 				liveAfter = r.liveDump()
 			}
+			// C03: a passphrase change that reported an error changed nothing in the running instance either: the old
+			// passphrase still opens the wallet, the new one does not
+			if f := strings.Fields(op); f[0] == "chpriv" && !crashed && strings.HasPrefix(out, "err") && fired && r.kmc != nil && len(r.kmc.ListKeystoreNames()) > 0 {
+				oldP, newP := r.passes[r.pidx(f[1])], r.passes[r.pidx(f[2])]
+				wasUnlocked := !r.kmc.IsLocked()
+				r.kmc.Lock()
+				h.Res.OracleEvals++
+				errNew := r.kmc.Unlock([]byte(newP))
+				r.kmc.Lock()
+				errOld := r.kmc.Unlock([]byte(oldP))
+				if errNew == nil || errOld != nil {
+					h.FailWith("C03:failed-change-switched-passphrase", fmt.Sprintf("%s: ChangePrivPassphrase reported %q, yet in the running instance Unlock with the NEW passphrase -> %v, with the still-current one -> %v", desc, out, errNew, errOld), replay)
+				}
+				if !wasUnlocked {
+					r.kmc.Lock()
+				}
+			}
 			obs := r.reopenObs()
 			if len(handedOut) > 0 && r.kmc != nil && !strings.HasPrefix(obs, "UNOPENABLE") {
 				h.Res.OracleEvals++
@@ -501,6 +518,35 @@ func (e *env) faultHistory(pub int, history []string) {
 			if key != "" {
 				opk := strings.Fields(op)[0]
 				h.FailWith("C12:"+key+"-"+opk+"-"+x.mode+"-"+kind, desc, replay)
+			}
+			// an operation that reported an error left no trace: asked again (no fault this time) it does what it would
+			// have done the first time - same result, same wallet after a restart (C12); in particular the next key
+			// request continues the ordinals without a gap (C06)
+			if !crashed && strings.HasPrefix(out, "err") && fired && (x.mode == "failcommit" || x.at == 0 || x.at == nw-1) && !strings.HasPrefix(outPost, "err") {
+				r2 := e.replica(pub, prefix)
+				r2.c.reset(x.mode, x.at)
+				r2.runOp(op)
+				r2.c.reset("", -1)
+				out2, _ := r2.runOp(op)
+				obs2 := r2.reopenObs()
+				r2.destroy()
+				h.Res.OracleEvals++
+				opk := strings.Fields(op)[0]
+				cmp := func(s string) string { // which keystore a plot key comes from is Go's map order
+					if opk == "genpub" {
+						if f := strings.Fields(s); len(f) == 5 {
+							return f[0] + " * " + f[2] + " " + f[3] + " " + f[4]
+						}
+					}
+					return s
+				}
+				if cmp(out2) != cmp(outPost) || (opk != "genpub" && obs2 != obsPost) {
+					d := fmt.Sprintf("%s: the operation reported %q; asked again without a fault it returned %q and the reopened wallet shows %q - the fault-free run returns %q and shows %q", desc, out, out2, obs2, outPost, obsPost)
+					h.FailWith("C12:retry-after-error-differs-"+opk+"-"+x.mode, d, replay)
+					if opk == "genpub" || opk == "next" {
+						h.FailWith("C06:ordinal-gap-after-failed-request", d, replay)
+					}
+				}
 			}
 			if r.mixed != "" {
 				h.FailWith("C03:passphrases-diverge-after-fault-"+strings.Fields(op)[0], fmt.Sprintf("history %q then %q with %s@%d(%s): %s", strings.Join(prefix, "; "), op, x.mode, x.at, kind, r.mixed), replay)
